@@ -291,6 +291,8 @@ type session struct {
 	pending     []*hx.Delivered
 	acked       []*hx.Delivered
 	holdCh      chan struct{}
+	holdOnce    bool          // "holdsave" with N=1: only the next save that reaches the store is held
+	heldCh      chan struct{} // the gate that one save is waiting on
 	failSet     map[int]bool
 	bgWG        sync.WaitGroup
 	stormStop   chan struct{}
@@ -643,6 +645,9 @@ func RunSession(spec *SessSpec) *Trace {
 		mdOpt.OnSave = func(n int, _ map[uint16]*models.CheckpointDocument, _ map[uint16]bool) error {
 			s.pmu.Lock()
 			h := s.holdCh
+			if h != nil && s.holdOnce {
+				s.holdCh, s.heldCh, s.holdOnce = nil, h, false
+			}
 			s.pmu.Unlock()
 			if h != nil {
 				<-h
@@ -1034,12 +1039,17 @@ func RunSession(spec *SessSpec) *Trace {
 		case "holdsave":
 			s.pmu.Lock()
 			s.holdCh = make(chan struct{})
+			s.holdOnce = st.N == 1
 			s.pmu.Unlock()
 		case "releasesave":
 			s.pmu.Lock()
 			if s.holdCh != nil {
 				close(s.holdCh)
 				s.holdCh = nil
+			}
+			if s.heldCh != nil {
+				close(s.heldCh)
+				s.heldCh = nil
 			}
 			s.pmu.Unlock()
 		case "commitold": // Commit() through the listener context of the first event of the session
@@ -1544,6 +1554,10 @@ func RunSession(spec *SessSpec) *Trace {
 	if s.holdCh != nil {
 		close(s.holdCh)
 		s.holdCh = nil
+	}
+	if s.heldCh != nil {
+		close(s.heldCh)
+		s.heldCh = nil
 	}
 	s.pmu.Unlock()
 	for _, n := range []string{"BRS", "ARS", "BRE", "ARE", "BSStart", "ASStart", "BSS", "ASS"} {
